@@ -6,6 +6,7 @@ from .contract import free_vars
 
 _OBS = []
 _TIMEOUT_MS = 60000
+_XCHECK = set()
 
 
 def model_dict(m, vars_):
@@ -71,6 +72,12 @@ def _solve(i):
                 free_vars(a, fv)
             return i, "sat", time.time() - t0, model_dict(s.model(), fv), "z3", ""
         if r == z3.unsat:
+            if i in _XCHECK:                 # thorough tier: second opinion on a sample of the proofs
+                r2 = _cvc5(asserts, 30000)
+                if r2 == "sat":
+                    return i, "error", time.time() - t0, None, "z3+cvc5", "SOLVER DISAGREEMENT: z3 unsat, cvc5 sat"
+                return i, "unsat", time.time() - t0, None, "z3" + ("+cvc5" if r2 == "unsat" else ""), \
+                    ("" if r2 == "unsat" else "cvc5 cross-check: no answer within 30 s")
             return i, "unsat", time.time() - t0, None, "z3", ""
         why = s.reason_unknown()
         r2 = _cvc5(asserts, _TIMEOUT_MS)
@@ -94,10 +101,15 @@ def default_procs():
     return ncpu if load < ncpu / 2 else max(3, ncpu // 4)
 
 
-def solve_all(obs, timeout_s=60, procs=None):
-    """-> list of dict(name, kind, expect, result, seconds, model, backend, note)"""
-    global _OBS, _TIMEOUT_MS
+def solve_all(obs, timeout_s=60, procs=None, xcheck=0, seed=0):
+    """-> list of dict(name, kind, expect, result, seconds, model, backend, note)
+    xcheck: number of z3-proved obligations to re-check with cvc5 (a deterministic sample)"""
+    global _OBS, _TIMEOUT_MS, _XCHECK
     _OBS = obs
+    cand = [i for i, o in enumerate(obs) if o.expect == "unsat" and o.method == "z3"]
+    import random as _r
+    _r.Random(seed).shuffle(cand)
+    _XCHECK = set(cand[:xcheck])
     _TIMEOUT_MS = int(timeout_s * 1000)
     procs = procs or min(default_procs(), max(1, len(obs)))
     res = [None] * len(obs)
